@@ -1,0 +1,5 @@
+//go:build !verif
+
+package sm9
+
+func verifGate(string) {}
